@@ -185,3 +185,30 @@ def _():
     z = ndx.asarray(np.zeros((0, 3), dtype=bool))
     eager_ok = ndx.concat([ndx.where(ndx.asarray(np.array([True, False, True])), x, x), z], axis=0).shape == (3, 3)
     return eager_ok and _raises(lambda: ndx.concat([ndx.where(c, x, x), z], axis=0))
+
+
+@witness("C07", "where/equal-branches/value-reported-for-placeholder-dependent-result")
+def _():
+    x = ndx.asarray(np.array([7], dtype=np.uint32))
+    c = ndx.array(shape=(None,), dtype=ndx.bool)
+    r = ndx.where(c, x, x)
+    v = r.to_numpy()
+    truth = ndx.where(ndx.asarray(np.array([True, False])), x, x).to_numpy()
+    return v is not None and tuple(v.shape) != tuple(truth.shape)
+
+
+@witness("C16", "broadcast_to*/*/*-only-with-onnxruntime-graph-optimizations")
+def _():
+    return W["C15"]["broadcast_to*/*/*-only-with-onnxruntime-graph-optimizations"]()
+
+
+@witness("C03", "clip-pyscalar*/*/dtype-*")
+def _():
+    x = ndx.asarray(np.array([0.5, 1.5], dtype=np.float32))
+    return ndx.clip(x, min=1.0, max=2.0).dtype != ndx.float32
+
+
+@witness("C10", "argext/uint64-beyond-int64/exported-model-differs-from-numpy")
+def _():
+    a = np.array([2, 2 ** 64 - 1], dtype=np.uint64)
+    return int(ndx.argmax(ndx.asarray(a)).to_numpy()) != int(np.argmax(a))
